@@ -383,9 +383,19 @@ namespace nrf52_details
 
     bluetoe::details::uint128_t security_tool_box::create_passkey()
     {
-        const bluetoe::details::uint128_t result{{
-            random_number8(), random_number8(), random_number8()
-        }};
+        // A passkey is a uniformly chosen value in the range 000000 to 999999 (Core Vol 3 Part H 2.3.5.3).
+        // Rejection sampling on 20 random bits; a value is accepted with a probability of more than 95%.
+        std::uint32_t passkey;
+
+        do
+        {
+            passkey  = random_number8();
+            passkey |= static_cast< std::uint32_t >( random_number8() ) << 8;
+            passkey |= static_cast< std::uint32_t >( random_number8() & 0x0f ) << 16;
+        } while ( passkey > 999999 );
+
+        bluetoe::details::uint128_t result{{ 0 }};
+        bluetoe::details::write_32bit( result.data(), passkey );
 
         return result;
     }
